@@ -66,6 +66,27 @@ def compared_constants(fn, attr: str | None, name: str | None = None):
     return out
 
 
+def compared_constants_deep(m: Module, fn, attr, name=None, depth=3, _seen=None):
+    """compared_constants over fn and the functions of the same module it calls (helpers extracted from it)."""
+    _seen = _seen if _seen is not None else set()
+    if id(fn) in _seen:
+        return set()
+    _seen.add(id(fn))
+    out = compared_constants(fn, attr, name)
+    if depth <= 0:
+        return out
+    by_name = {}
+    for f in m.all_functions():
+        by_name.setdefault(f.name, f)
+    for c in calls_in(fn):
+        d = dotted(c.func) or ""
+        short = d.split(".")[-1]
+        callee = by_name.get(short)
+        if callee is not None and callee is not fn and (d == short or d.startswith("self.") or d.startswith("cls.")):
+            out |= compared_constants_deep(m, callee, attr, name, depth - 1, _seen)
+    return out
+
+
 def guards_of(m: Module, node):
     """Expressions known truthy at `node` (as unparsed text), by walking up the syntax tree."""
     known = set()
@@ -177,7 +198,7 @@ def run(ctx: Ctx):
         if fn is None:
             raise AnalysisError(f"{rel}: kind dispatcher {fname} not found")
         ctx.fn(f"{rel}:{fname}")
-        got = compared_constants(fn, "kind")
+        got = compared_constants_deep(m, fn, "kind")
         ctx.floor(f"{rel}:{fname} kinds compared", len(got), 6)
         for k in sorted(DISCIPLINE_KINDS):
             ctx.check(k in got, "kind-exhaustive", f"{rel.split('/')[2]}:{fname}:{k}",
@@ -193,14 +214,14 @@ def run(ctx: Ctx):
         m0 = idx.get(rel)
         fn0 = next((f for f in m0.all_functions() if f.name == fname), None)
         if fn0 is not None:
-            handled_by[rel] = compared_constants(fn0, "name", "name")
+            handled_by[rel] = compared_constants_deep(m0, fn0, "name", "name")
     for rel, (fname, excl) in sorted(BASE_MAPPERS.items()):
         m = idx.get(rel)
         fn = next((f for f in m.all_functions() if f.name == fname), None)
         if fn is None:
             raise AnalysisError(f"{rel}: base-type mapper {fname} not found")
         ctx.fn(f"{rel}:{fname}")
-        got = compared_constants(fn, "name", "name")
+        got = compared_constants_deep(m, fn, "name", "name")
         handled_by[rel] = got
         ctx.floor(f"{rel}:{fname} base names compared", len(got), 6)
         for b in base_types:
@@ -215,7 +236,7 @@ def run(ctx: Ctx):
     fv = pm.functions.get("_generate_field_validator")
     if fv is None:
         raise AnalysisError(f"{P_PYUTILS}: _generate_field_validator not found")
-    vnames = compared_constants(fv, "name")
+    vnames = compared_constants_deep(pm, fv, "name", "name")
     for b in ("integer", "uinteger", "string", "boolean", "decimal", "DocumentUri", "URI"):
         ctx.check(b in vnames, "base-name-exhaustive", f"python:_generate_field_validator:{b}",
                   f"no validator is selected for base type '{b}'", P_PYUTILS, fv.lineno)
